@@ -227,6 +227,40 @@ def run(ctx):
                 ctx.violation("answer-depends-on-after-hooks",
                               {"scenario": sc.describe(),
                                "with": ans.status, "without": ans2.status})
+    # aborts that carry keyword arguments for the built-in page: under
+    # Digest authentication HTTPException(401, realm=..) is answered by the
+    # built-in 401 page with a challenge -- whatever the client sent or did
+    # not send about itself (no User-Agent header at all, an empty one)
+    from implrun import new_app, environ, call
+    from poorwsgi.response import HTTPException
+    for where, agent, stale, method in itertools.product(
+            ("endpoint", "before"), (None, "", "agent/1.0", "\xe9"),
+            (False, True), ("GET", "POST")):
+        app = new_app(secret_key="k" * 16, auth_type="Digest")
+
+        def stop(req):
+            raise HTTPException(401, realm="R", stale=stale)
+        if where == "endpoint":
+            app.set_route("/x", stop, 511)
+        else:
+            app.set_route("/x", lambda req: "never", 511)
+            app.add_before_response(stop)
+        env = environ(method=method, path="/x")
+        if agent is not None:
+            env["HTTP_USER_AGENT"] = agent
+        ans = call(app, env)
+        detail = {"raised_in": where, "user_agent": agent, "stale": stale,
+                  "method": method, "status": ans.status,
+                  "exc": repr(ans.raised)}
+        ctx.case(("abort-401-digest", where, agent, stale, method), True,
+                 detail)
+        ctx.count("abort(401, realm) under Digest")
+        challenge = ans.header("WWW-Authenticate") if ans.calls else None
+        if ans.raised is not None or ans.code != 401 or not challenge or \
+                not challenge.startswith("Digest ") or \
+                'realm="R"' not in challenge:
+            ctx.violation("abort-401-digest-not-the-builtin-page",
+                          dict(detail, challenge=challenge))
     return ctx.finish(
         "all 14 abort codes x user status handler {absent, 10 return shapes, "
         "raising, aborting} x 0/1/2 pass-through after hooks x methods; "
